@@ -6,6 +6,7 @@ use chrono::{DateTime, FixedOffset, Utc};
 use rpm::{CompressionType, CompressionWithLevel, Error, FileCaps, FileOptions, IndexTag, Package, PackageBuilder, Timestamp};
 use std::ffi::OsStr;
 use std::os::unix::ffi::OsStrExt;
+use std::os::unix::fs::OpenOptionsExt;
 use std::panic::AssertUnwindSafe;
 use std::path::{Component, Path};
 use std::str::FromStr;
@@ -315,6 +316,156 @@ fn layout(dests: Vec<String>) -> String {
     }
 }
 
+/// `leveld <type|default>`: `compression(CompressionType::<type>)` — the level is the library's default for the type — or no
+/// `compression()` call at all (`CompressionWithLevel::default()`), then build; observed: what the header records
+fn leveld(ty: &str) -> Option<String> {
+    let ct = match ty {
+        "default" => None,
+        t => Some(t.parse::<CompressionType>().ok()?),
+    };
+    let src = source_file();
+    Some(match guarded(AssertUnwindSafe(move || -> Result<String, ()> {
+        let mut b = builder();
+        if let Some(ct) = ct { b = b.compression(ct); }
+        let pkg = b.with_file(src, FileOptions::new("/usr/bin/x")).map_err(|_| ())?.build().map_err(|_| ())?;
+        let p = roundtrip(&pkg).map_err(|_| ())?;
+        let files: Vec<_> = p.files().map_err(|_| ())?.collect();
+        if !(files.len() == 1 && matches!(&files[0], Ok(f) if f.content == SRC_CONTENT)) { return Ok("corrupt".into()); }
+        let h = &p.metadata.header;
+        let name = h.get_entry_data_as_string(IndexTag::RPMTAG_PAYLOADCOMPRESSOR).map(|s| s.to_string()).unwrap_or("none".into());
+        let flags = h.get_entry_data_as_string(IndexTag::RPMTAG_PAYLOADFLAGS).map(|s| s.to_string()).unwrap_or("-".into());
+        Ok(format!("ok {} {}", name, flags))
+    })) {
+        Ok(Ok(s)) => s,
+        Ok(Err(())) => "err".into(),
+        Err(_) => "panic".into(),
+    })
+}
+
+fn err_class_wf(e: &Error) -> &'static str {
+    match e {
+        Error::TimestampConv(_) => "err:TimestampConv",
+        e => err_class(e),
+    }
+}
+
+/// `wfile <kind> <perm> <secs> <nanos> <size> <dest> <setters>` (see lean/RpmVerif/Driver/WithFile.lean)
+fn wfile(a: &[&str]) -> Option<String> {
+    use std::os::unix::fs::{MetadataExt, PermissionsExt};
+    let (kind, perm, secs, nanos, size) = (a[0], u32::from_str_radix(a[1], 8).ok()?, a[2].parse::<i64>().ok()?, a[3].parse::<u32>().ok()?, a[4].parse::<usize>().ok()?);
+    if nanos >= 1_000_000_000 { return None; }
+    let dest = String::from_utf8(unhx(a[5])).ok()?;
+    let setters: Vec<&str> = if a[6] == "-" { vec![] } else { a[6].split(',').collect() };
+    let dir = std::path::PathBuf::from(format!("{}/../work/wf-{}", env!("CARGO_MANIFEST_DIR"), std::process::id()));
+    let _ = std::fs::remove_dir_all(&dir);
+    std::fs::create_dir_all(&dir).ok()?;
+    let src = dir.join("src");
+    let content = crate::bld::content(7, size);
+    let when = crate::bld::file_time(secs, nanos);
+    let mut path = src.clone();
+    // prepare the source
+    let prep = (|| -> std::io::Result<()> {
+        match kind {
+            "reg" | "lnk" => {
+                std::fs::write(&src, &content)?;
+                std::fs::set_permissions(&src, std::fs::Permissions::from_mode(perm))?;
+                let f = std::fs::File::options().write(true).open(&src)?;
+                f.set_modified(when)?;
+                drop(f);
+                if kind == "lnk" {
+                    path = dir.join("link");
+                    std::os::unix::fs::symlink("src", &path)?;
+                }
+            }
+            "dir" => {
+                std::fs::create_dir(&src)?;
+                std::fs::set_permissions(&src, std::fs::Permissions::from_mode(perm))?;
+                let f = std::fs::File::open(&src)?;
+                f.set_modified(when)?;
+            }
+            "fifo" => {
+                let c = std::ffi::CString::new(src.as_os_str().as_bytes()).unwrap();
+                if unsafe { libc::mkfifo(c.as_ptr(), 0o600) } != 0 { return Err(std::io::Error::last_os_error()); }
+                std::fs::set_permissions(&src, std::fs::Permissions::from_mode(perm))?;
+            }
+            _ => {}
+        }
+        Ok(())
+    })();
+    if prep.is_err() { let _ = std::fs::remove_dir_all(&dir); return Some("st=- fs-unsupported".into()); }
+    // what the operating system says the source is (and whether the file system kept the time we asked for)
+    let st = match std::fs::metadata(&path) { Ok(m) => format!("{:o}", m.mode()), Err(_) => "-".into() };
+    if matches!(kind, "reg" | "lnk" | "dir") {
+        let kept = std::fs::metadata(&path).ok().map(|m| (m.mtime(), m.mtime_nsec() as u32)) == Some((secs, nanos));
+        if !kept { let _ = std::fs::remove_dir_all(&dir); return Some(format!("st={} fs-unsupported", st)); }
+    }
+    // a FIFO needs a writer: opening it for writing blocks until `with_file` opens it for reading
+    let writer = if kind == "fifo" {
+        let (p, c) = (src.clone(), content.clone());
+        Some(std::thread::spawn(move || {
+            use std::io::Write;
+            if let Ok(mut f) = std::fs::File::options().write(true).open(&p) { let _ = f.write_all(&c); }
+        }))
+    } else { None };
+    let r = guarded(AssertUnwindSafe(|| -> Result<String, Error> {
+        let mut o = FileOptions::new(dest);
+        for s in &setters {
+            let (k, v) = s.split_once('=').unwrap_or((s, ""));
+            let text = || String::from_utf8(unhx(v)).expect("utf8");
+            o = match k {
+                "user" => o.user(text()),
+                "group" => o.group(text()),
+                "symlink" => o.symlink(text()),
+                "caps" => o.caps(text())?,
+                "mode" => o.mode(v.parse::<i32>().expect("i32")),
+                "modeu" => o.mode(v.parse::<u16>().expect("u16")),
+                "moder" => o.mode(rpm::FileMode::regular(u16::from_str_radix(v, 8).expect("perm"))),
+                "moded" => o.mode(rpm::FileMode::dir(u16::from_str_radix(v, 8).expect("perm"))),
+                "model" => o.mode(rpm::FileMode::symbolic_link(u16::from_str_radix(v, 8).expect("perm"))),
+                "verify" => o.verify(rpm::FileVerifyFlags::from_bits_retain(v.parse().expect("u32"))),
+                name => crate::bld::apply_flag_setter(o, name),
+            };
+        }
+        let pkg = builder().compression(CompressionType::None).with_file(&path, o)?.build()?;
+        let p = roundtrip(&pkg).map_err(|_| Error::from(std::io::Error::other("roundtrip")))?;
+        let e = p.metadata.get_file_entries()?;
+        let vf = p.metadata.header.get_entry_data_as_u32_array(IndexTag::RPMTAG_FILEVERIFYFLAGS)?;
+        if e.len() != 1 || vf.len() != 1 { return Ok("err:shape".into()); }
+        let e = &e[0];
+        // the c_mode field of the (uncompressed) payload's first newc header: 6 bytes magic, 8 hex digits ino, 8 hex digits mode
+        let cmode = p.content.get(14..22).and_then(|h| std::str::from_utf8(h).ok()).and_then(|h| u32::from_str_radix(h, 16).ok());
+        Ok(format!(
+            "ok mode={} cmode={} mtime={} flags={} user={} group={} link={} caps={} vf={} size={}",
+            e.mode.raw_mode(), cmode.map(|c| c.to_string()).unwrap_or("?".into()),
+            if kind == "fifo" { "~".to_string() } else { e.modified_at.0.to_string() },
+            e.flags.bits(), hx(e.ownership.user.as_bytes()), hx(e.ownership.group.as_bytes()), hx(e.linkto.as_bytes()),
+            e.caps.as_ref().map(|c| hx(c.to_string().as_bytes())).unwrap_or("~".into()), vf[0], e.size
+        ))
+    }));
+    if let Some(w) = writer {
+        // `with_file` may have failed before opening the FIFO (or before the writer got as far as its `open`): be a reader
+        // ourselves — held until the writer is through, and draining what it writes — then wait for it
+        if let Ok(mut rd) = std::fs::File::options().read(true).custom_flags(libc::O_NONBLOCK).open(&src) {
+            use std::io::Read;
+            let mut buf = [0u8; 4096];
+            for _ in 0..20_000 {
+                match rd.read(&mut buf) {
+                    Ok(n) if n > 0 => continue,
+                    _ => { if w.is_finished() { break; } std::thread::sleep(std::time::Duration::from_micros(500)); }
+                }
+            }
+        }
+        let _ = w.join();
+    }
+    let _ = std::fs::set_permissions(&src, std::fs::Permissions::from_mode(0o700));
+    let _ = std::fs::remove_dir_all(&dir);
+    Some(format!("st={} {}", st, match r {
+        Ok(Ok(s)) => s,
+        Ok(Err(e)) => err_class_wf(&e).to_string(),
+        Err(_) => "panic".into(),
+    }))
+}
+
 fn meta(s: String) -> String {
     let r = guarded(AssertUnwindSafe(|| -> Result<(), Error> {
         let pkg = PackageBuilder::new(&s, &s, &s, &s, &s)
@@ -364,6 +515,8 @@ pub fn eval(op: &str, a: &[&str]) -> Option<String> {
         }
         // `levelnb`: the same request against rpm-rs built WITHOUT bzip2 support (only emitted by the nobz variant)
         "level" | "levelnb" if a.len() == 2 => level(a[0], a[1].parse().ok()?),
+        "leveld" | "leveldnb" if a.len() == 1 => leveld(a[0]),
+        "wfile" | "wfile6" if a.len() == 7 => wfile(a),
         "tsset" if a.len() == 4 => tsset(a[0], a[1], a[2].parse().ok()?, a[3].parse().ok()?),
         "capsset" if a.len() == 1 => Some(capsset(text(a[0])?)),
         "meta" if a.len() == 1 => Some(meta(text(a[0])?)),
@@ -404,8 +557,88 @@ fn dest_ops(ctx: &mut Ctx, s: &str) {
     path_ops(ctx, s.as_bytes());
 }
 
+/// `wfile` / `wfile6` requests: the source file's kind, mode bits and mtime against option chains
+pub fn gen_wfile(ctx: &mut Ctx, op: &str) {
+    let h = |s: &str| hx(s.as_bytes());
+    let (si, sn) = ctx.shard;
+    let mut k = 0u64;
+    let mut emit = |ctx: &mut Ctx, line: String| {
+        k += 1;
+        if k % sn == si { ctx.req(&format!("{} {}", op, line)); }
+    };
+    const TWO32: i64 = 1 << 32;
+    let times: [(i64, u32); 16] = [(-1, 999_999_999), (-1, 0), (-2, 500_000_000), (-86_400, 0), (-2_147_483_648, 0), (0, 0), (0, 1),
+        (1_500_000_000, 0), (1_500_000_000, 999_999_999), (2_147_483_648, 0), (TWO32 - 1, 0), (TWO32 - 1, 999_999_999), (TWO32, 0),
+        (TWO32, 1), (TWO32 + 1, 0), (15_000_000_000, 0)];
+    let perms = [0o644u32, 0o755, 0o600, 0, 0o7777, 0o4755, 0o2755, 0o1777, 0o6711, 0o1000, 0o4000, 0o2000, 0o111, 0o7000];
+    let dests = ["/usr/bin/x", "./a", "/x", "/usr/..", "rel/x", "//a//b/"];
+    let chains: Vec<String> = vec![
+        "-".into(),
+        "doc".into(), "config".into(), "config_noreplace".into(), "ghost".into(), "license".into(), "readme".into(),
+        "doc,config,config_noreplace,ghost,license,readme".into(), "config_noreplace,config_noreplace".into(), "readme,doc".into(),
+        format!("user={}", h("hugo")), format!("group={}", h("www-data")), format!("user={},group={},user={}", h("a"), h("b"), h("c")),
+        format!("symlink={}", h("/usr/bin/target")), format!("caps={}", h("cap_chown=p")), format!("caps={}", h("cap_bogus=p")),
+        format!("caps={},caps={}", h("cap_kill+e"), h("=e")), "verify=0".into(), "verify=4294967295".into(), "verify=96,verify=1".into(),
+        "mode=33188".into(), "mode=33261,doc".into(), format!("doc,user={},mode=33261", h("u")), "mode=33188,mode=16877".into(),
+        format!("mode=41471,symlink={}", h("t")), "mode=0".into(), "mode=-1".into(), "mode=-32768".into(), "mode=-32769".into(),
+        "mode=65535".into(), "mode=65536".into(), "mode=94132".into(), "mode=98724".into(), "mode=2147483647".into(),
+        "mode=-2147483648".into(), "mode=4516".into(), "mode=8612".into(), "mode=24996".into(), "mode=49572".into(),
+        "modeu=33188".into(), "modeu=4516".into(), "modeu=65535".into(), "modeu=0".into(),
+        "moder=644".into(), "moder=7777".into(), "moder=177777".into(), "moded=755".into(), "model=777".into(),
+        format!("ghost,caps={},verify=3,mode=33188,group={},license", h("cap_net_raw+ep"), h("g")),
+    ];
+    // 1. every kind x permission bits x a few chains, at a plain time
+    for kind in ["reg", "lnk", "fifo", "dir", "missing"] {
+        for perm in perms {
+            for chain in ["-", "mode=33188", "doc,mode=-1,config"] {
+                emit(ctx, format!("{} {:o} 1500000000 0 13 {} {}", kind, perm, h("/usr/bin/x"), chain));
+            }
+        }
+    }
+    // 2. regular source: every time x inherit / explicit x good and bad destinations (the mtime error comes first)
+    for (s, n) in times {
+        for chain in ["-", "mode=33261", "ghost"] {
+            for d in ["/usr/bin/x", "/usr/.."] {
+                emit(ctx, format!("reg 644 {} {} 5 {} {}", s, n, h(d), chain));
+            }
+        }
+        emit(ctx, format!("lnk 4755 {} {} 0 {} -", s, n, h("/l")));
+        emit(ctx, format!("dir 755 {} {} 0 {} -", s, n, h("/d")));
+    }
+    // 3. every chain on a set-uid executable, every destination shape on a few chains
+    for chain in &chains {
+        emit(ctx, format!("reg 4755 1234567890 5 100 {} {}", h("/opt/tool"), chain));
+        emit(ctx, format!("fifo 640 0 0 9 {} {}", h("/opt/pipe"), chain));
+    }
+    for d in dests {
+        for chain in ["-", "mode=33188,doc", "caps=3d70"] {
+            emit(ctx, format!("reg 644 1500000000 0 3 {} {}", h(d), chain));
+        }
+    }
+    // 4. seeded combinations
+    let n = ctx.q(300u64, 6000);
+    for _ in 0..n {
+        let kind = *ctx.rng.pick(&["reg", "reg", "reg", "lnk", "fifo", "dir", "missing"]);
+        let perm = if ctx.rng.chance(1, 2) { *ctx.rng.pick(&perms) } else { ctx.rng.below(0o10000) as u32 };
+        let (s, nn) = if ctx.rng.chance(2, 3) { (ctx.rng.range(0, 4_000_000_000), ctx.rng.below(1_000_000_000) as u32) } else { *ctx.rng.pick(&times) };
+        let mut parts: Vec<String> = Vec::new();
+        for _ in 0..ctx.rng.below(5) {
+            let c = ctx.rng.pick(&chains).clone();
+            if c != "-" { parts.push(c); }
+        }
+        if ctx.rng.chance(1, 3) { parts.push(format!("mode={}", ctx.rng.range(-70_000, 140_000))); }
+        let chain = if parts.is_empty() { "-".to_string() } else { parts.join(",") };
+        let size = *ctx.rng.pick(&[0usize, 1, 13, 4096, 70_000]);
+        let d = *ctx.rng.pick(&dests);
+        emit(ctx, format!("{} {:o} {} {} {} {} {}", kind, perm, s, nn, size, h(d), chain));
+    }
+}
+
 /// rpm-rs without bzip2 support: every type x level is ok / err, never a panic; bzip2 is always refused
 fn gen_nobz(ctx: &mut Ctx) {
+    for ty in ["default", "none", "gzip", "zstd", "xz", "bzip2"] {
+        if ctx.shard.0 == 0 { ctx.req(&format!("leveldnb {}", ty)); }
+    }
     let mut k = 0u64;
     for ty in ["none", "gzip", "zstd", "xz", "bzip2"] {
         for l in [-1i64, 0, 1, 5, 9, 10, 19, 22, 23, 100, 2147483647, 4294967295] {
@@ -421,7 +654,11 @@ pub fn gen(ctx: &mut Ctx) {
     if ctx.variant == "nobz" {
         return gen_nobz(ctx);
     }
+    gen_wfile(ctx, "wfile");
     if ctx.shard.0 == 0 {
+        for ty in ["default", "none", "gzip", "zstd", "xz", "bzip2"] {
+            ctx.req(&format!("leveld {}", ty));
+        }
         // layouts: every non-empty subset (as a sequence, two orders) of a small tree in which files sit beside
         // sub-directories that sort before / after them, plus duplicates and odd spellings
         let tree = ["/a/z", "/a/m/x", "/a/m/n/y", "/a/b", "/a/zz/q", "/b", "/a/m.txt", "/a/m/x/deep", "./a/k", "//a//m//w"];
